@@ -232,7 +232,7 @@ func init() {
 				if big {
 					sh = n - 1 - i
 				}
-				by := sel(sel(h, slRef(b.S)), add(slOff(b.S), itoa(int64(i))))
+				by := sel(sel(h, slRef(b.S)), ix(slOff(b.S), itoa(int64(i))))
 				st.assume(rangePred(by, et))
 				parts = append(parts, fmt.Sprintf("(* %s %s)", by, pow256(sh)))
 			}
@@ -254,7 +254,7 @@ func init() {
 				if big {
 					sh = n - 1 - i
 				}
-				row = store(row, add(slOff(b.S), itoa(int64(i))), fmt.Sprintf("(mod (div %s %s) 256)", v.S, pow256(sh)))
+				row = store(row, ix(slOff(b.S), itoa(int64(i))), fmt.Sprintf("(mod (div %s %s) 256)", v.S, pow256(sh)))
 			}
 			st.setHeap(hn, hs, store(h, slRef(b.S), row))
 			return Val{}
@@ -415,23 +415,23 @@ func (e *Engine) modelSort(st *State, fr *Frame, x Val, pos token.Pos, ins ssa.I
 	in := func(i string) string { return fmt.Sprintf("(and (<= %s %s) (< %s (+ %s %s)))", off, i, i, off, ln) }
 	// outside the slice window nothing changes
 	st.assume(fmt.Sprintf("(forall ((i Int)) (! (=> (not %s) (= (select %s i) (select %s i))) :pattern ((select %s i))))", in("i"), row, oldrow, row))
-	// sorted
-	st.assume(fmt.Sprintf("(forall ((i Int) (j Int)) (! (=> (and %s %s (<= i j)) (<= (select %s i) (select %s j))) :pattern ((select %s i) (select %s j))))", in("i"), in("j"), row, row, row, row))
+	// sorted (relative indices)
+	st.assume(fmt.Sprintf("(forall ((i Int) (j Int)) (! (=> (and (<= 0 i) (<= i j) (< j %s)) (<= (select %s %s) (select %s %s))) :pattern ((select %s %s) (select %s %s))))",
+		ln, row, ix(off, "i"), row, ix(off, "j"), row, ix(off, "i"), row, ix(off, "j")))
 	if sortOf(slt.Elem()) == "Int" {
 		// a permutation keeps the element set (valid fact; saves an induction)
 		reg.declareFun("elems!Int", []string{"(Array Int Int)", "Int", "Int"}, "(Array Int Bool)")
 		e.assumptions["sort.Sort: elems(sorted) = elems(original) (trusted lemma about the ghost element set)"] = true
 		st.assume(fmt.Sprintf("(= (elems!Int %s %s %s) (elems!Int %s %s %s))", row, off, ln, oldrow, off, ln))
 	}
-	// permutation: a bijection p on the relative indices 0..len-1 (relative indices keep the shape "off + i" that
-	// quantified contracts use, so E-matching connects them)
+	// permutation: a bijection p on the relative indices 0..len-1
 	p := fresh("perm")
 	st.decls = append(st.decls, fmt.Sprintf("(declare-fun %s (Int) Int)", p), fmt.Sprintf("(declare-fun %s_inv (Int) Int)", p))
 	rng := func(i string) string { return fmt.Sprintf("(and (<= 0 %s) (< %s %s))", i, i, ln) }
-	st.assume(fmt.Sprintf("(forall ((i Int)) (! (=> %s (and %s (= (select %s (+ %s i)) (select %s (+ %s (%s i)))) (= (%s_inv (%s i)) i))) :pattern ((%s i)) :pattern ((select %s (+ %s i)))))",
-		rng("i"), rng("("+p+" i)"), row, off, oldrow, off, p, p, p, p, row, off))
-	st.assume(fmt.Sprintf("(forall ((i Int)) (! (=> %s (and %s (= (select %s (+ %s (%s_inv i))) (select %s (+ %s i))) (= (%s (%s_inv i)) i))) :pattern ((%s_inv i)) :pattern ((select %s (+ %s i)))))",
-		rng("i"), rng("("+p+"_inv i)"), row, off, p, oldrow, off, p, p, p, oldrow, off))
+	st.assume(fmt.Sprintf("(forall ((i Int)) (! (=> %s (and %s (= (select %s %s) (select %s %s)) (= (%s_inv (%s i)) i))) :pattern ((%s i)) :pattern ((select %s %s))))",
+		rng("i"), rng("("+p+" i)"), row, ix(off, "i"), oldrow, ix(off, "("+p+" i)"), p, p, p, row, ix(off, "i")))
+	st.assume(fmt.Sprintf("(forall ((i Int)) (! (=> %s (and %s (= (select %s %s) (select %s %s)) (= (%s (%s_inv i)) i))) :pattern ((%s_inv i)) :pattern ((select %s %s))))",
+		rng("i"), rng("("+p+"_inv i)"), row, ix(off, "("+p+"_inv i)"), oldrow, ix(off, "i"), p, p, p, oldrow, ix(off, "i")))
 	st.setHeap(hn, hs, store(h, slRef(sv.S), row))
 }
 
